@@ -115,3 +115,45 @@ lemma("C15.compose-abbr", doc="every abbreviation the contract's table outputs d
       vars={}, ensures=_month_of_out("abbr"), props=("C15",))
 lemma("C15.compose-long", doc="every full name the contract's table outputs denotes its own month",
       vars={}, ensures=_month_of_out("long"), props=("C15",))
+
+
+def _at(expr, vexpr):
+    return expr.replace("(v)", f"({vexpr})")
+
+
+_OLDV = "old(entry._fields[j]._value)"
+_NEWV = "entry._fields[j]._value"
+_MJ = _at(MONTH, _OLDV)
+_ODDJ = _at(ODD_DIGITS, _OLDV)
+
+
+def _rule(kind):
+    if kind == "int":
+        month = f"isint({_NEWV}) and ival({_NEWV}) == {_MJ}"
+    elif kind == "abbr":
+        month = f"isstr({_NEWV}) and sval({_NEWV}) == {with_m(ABBR, _MJ)}"
+    else:
+        month = f"isstr({_NEWV}) and sval({_NEWV}) == {with_m(FULL, _MJ)}"
+    return (f"forall(j, 0 <= j < len(entry._fields), implies(entry._fields[j]._key == 'month', "
+            f"implies({_MJ} != 0, {month}) and implies({_MJ} == 0 and not {_ODDJ}, same({_NEWV}, {_OLDV}))))")
+
+
+@contract(M + "_MonthInterpolator.transform_entry")
+class _:
+    """the resolved value is written into the month field only; an entry without a month field is untouched"""
+    sorts = {"self": "ref:_MonthInterpolator", "entry": "ref:Entry", "library": "ref:Library", "result": "ref:Entry"}
+    requires = {"values-kind": "forall(j, 0 <= j < len(entry._fields), isstr(entry._fields[j]._value) or isint(entry._fields[j]._value))",
+                "distinct-keys": "forall((a, b), 0 <= a < b < len(entry._fields), entry._fields[a]._key != entry._fields[b]._key)",
+                "distinct-fields": "forall((a, b), 0 <= a < b < len(entry._fields), not same(entry._fields[a], entry._fields[b]))",
+                "meta-dict": "not isnone(entry._parser_metadata)",
+                "concrete-middleware": "cls_is(self, 'MonthIntMiddleware') or cls_is(self, 'MonthAbbreviationMiddleware') or cls_is(self, 'MonthLongStringMiddleware')"}
+    ensures = {
+        "C15.others-untouched": "forall(j, 0 <= j < len(entry._fields), implies(entry._fields[j]._key != 'month', same(entry._fields[j]._value, old(entry._fields[j]._value))))",
+        "C15.entry-int": f"implies(cls_is(self, 'MonthIntMiddleware'), {_rule('int')})",
+        "C15.entry-abbr": f"implies(cls_is(self, 'MonthAbbreviationMiddleware'), {_rule('abbr')})",
+        "C15.entry-long": f"implies(cls_is(self, 'MonthLongStringMiddleware'), {_rule('long')})",
+        "C15.same-entry": "same(result, entry)",
+        "C15.structure-untouched": "unchanged('Field._key') and unchanged('Entry._fields') and unchanged('list:ref:Field') and unchanged('Entry._key') and unchanged('Entry._entry_type')",
+    }
+    raises = {}
+    modifies = ["Field._value", "@content(entry._parser_metadata)"]
